@@ -10,6 +10,7 @@ mod confid;
 mod enc;
 mod fuzz;
 mod history;
+mod integrity;
 mod keys;
 mod repair;
 mod util;
@@ -64,6 +65,8 @@ fn main() {
         "c16" => cli::c16_cases(&mut rng, &tier, &mut out),
         "c02" => repair::c02_cases(&mut rng, &tier, &mut out),
         "c05" => repair::c05_cases(&mut rng, &tier, &mut out),
+        "c03" => integrity::c03_cases(&mut rng, &tier, &mut out),
+        "c04" => integrity::c04_cases(&mut rng, &tier, &mut out),
         "c07" => confid::c07_cases(&mut rng, &tier, &mut out),
         "c07-child" => confid::child(),
         "c08" => fuzz::c08_cases(&mut rng, &tier, &mut out),
